@@ -240,8 +240,9 @@ class PDFResourceManager:
                 font = PDFCIDFont(self, spec)
             elif subtype == "Type0":
                 # Type0 Font
-                dfonts = list_value(spec["DescendantFonts"])
-                assert dfonts
+                dfonts = list_value(spec.get("DescendantFonts", []))
+                if not dfonts:
+                    raise PDFFontError("Type0 font without DescendantFonts")
                 subspec = dict_value(dfonts[0]).copy()
                 if subspec.get("Subtype") is LITERAL_TYPE0:
                     # the descendant of a composite font is a CIDFont; a
